@@ -507,6 +507,33 @@ def F34():
         return "TimeQuery() == t is False on a Point whose (zoned, repeated-hour) time is t"
 
 
+def F35():
+    import os, shutil, tempfile
+    d = tempfile.mkdtemp()
+    cwd = os.getcwd()
+    try:
+        os.makedirs(os.path.join(d, "one"))
+        os.makedirs(os.path.join(d, "two"))
+        os.chdir(os.path.join(d, "one"))
+        db = TinyFlux("rel.csv")
+        for i in range(3):
+            db.insert(Point(time=datetime(2020, 1, 1, 0, 0, i, tzinfo=timezone.utc), tags={"k": str(i)}, fields={"a": i}))
+        os.chdir(os.path.join(d, "two"))
+        n = db.remove(TagQuery().k == "1")
+        db.close()
+        db2 = TinyFlux(os.path.join(d, "one", "rel.csv"))
+        try:
+            held = [p.tags["k"] for p in db2.all()]
+        finally:
+            db2.close()
+        if held != ["0", "2"] or os.listdir(os.path.join(d, "two")):
+            return (f"opened as 'rel.csv' in one/, after os.chdir('../two') remove() returned {n}; one/rel.csv still holds {held}, "
+                    f"two/ now holds {os.listdir(os.path.join(d, 'two'))}")
+    finally:
+        os.chdir(cwd)
+        shutil.rmtree(d, ignore_errors=True)
+
+
 ALL = [k for k in list(globals()) if re.fullmatch(r"F\d+[a-c]?", k)]
 
 if __name__ == "__main__":
